@@ -7,6 +7,9 @@ from contracts import dr as D
 
 def units(tier):
     us = [Unit(F.Reopened, {'script': s}) for s in sorted(F.SCRIPTS) + F.random_names(tier)]
+    # two generations (open - edit - write - open - edit - write)
+    two = ['rr-joliet-remove', 'joliet', 'deep-rr'] if tier == 'quick' else [s for s in sorted(F.SCRIPTS_ALL) if s != 'empty-files'] + F.random_names(tier)
+    us += [Unit(F.Reopened, {'script': s, 'generations': 2}) for s in two]
     us += [Unit(F.ReopenedUDF, {'script': s}) for s in sorted(F.UDF_SCRIPTS) + F.random_udf_names(tier)]
     us += [Unit(H.VDCopy), Unit(H.AddToPtrSize, {'remove': False}), Unit(H.AddToPtrSize, {'remove': True})]
     # edits rely on the cached per-child positions / indices being rebuilt from the edit point on, whatever they held before
